@@ -172,9 +172,9 @@ structure Taken where
   q : Nat
   deriving DecidableEq, Repr
 
-/-- a user pays `x` of wrapped farm nonce `f`; the proxy burns it, the farm tokens leave the
-    proxy (`hf`), and the pro-rata proxy-farming part is treated according to `mode`. -/
-def takeF (s : St) (f x : Nat) (mode : Mode) : Option (St × Taken) := do
+/-- first half of `takeF`: a user pays `x` of wrapped farm nonce `f`; the proxy burns it and the
+    farm tokens leave the proxy (`hf`).  Returns the record and its pro-rata proxy-farming part. -/
+def takeF0 (s : St) (f x : Nat) : Option (St × WFarm × Nat) := do
   let r ← s.wf[f]?
   req (0 < x)
   let c ← sub? r.circ x
@@ -182,26 +182,43 @@ def takeF (s : St) (f x : Nat) (mode : Mode) : Option (St × Taken) := do
   let rf ← sub? r.remF x
   let rp ← sub? r.remP p
   let hfb ← (s.hf r.farm).sub? r.fn x
-  let s1 : St := { setF s f { r with circ := c, remF := rf, remP := rp } with
-                   hf := fun g => if g = r.farm then hfb else s.hf g }
-  match r.kind, mode with
-  | _, .keep => pure (s1, ⟨r, p, 0, 0⟩)
-  | .locked, _ => do
-      let lk ← s1.lk.sub? r.pn p
-      pure ({ s1 with lk := lk }, ⟨r, p, r.pn, p⟩)
-  | .wlp, .out => do
-      let rw ← s1.wl[r.pn]?
-      let h ← sub? rw.held p
-      pure (setW s1 r.pn { rw with held := h, circ := rw.circ + p }, ⟨r, p, 0, 0⟩)
-  | .wlp, .dissolve orphan => do
-      let rw ← s1.wl[r.pn]?
-      let h ← sub? rw.held p
-      let q ← part rw.locked rw.total p
-      let rem ← sub? rw.rem q
-      let lk ← s1.lk.sub? rw.k q
-      pure ({ setW s1 r.pn { rw with held := h, rem := rem,
-                                      orph := if orphan then rw.orph + p else rw.orph }
-                with lk := lk }, ⟨r, p, rw.k, q⟩)
+  pure ({ setF s f { r with circ := c, remF := rf, remP := rp } with
+          hf := fun g => if g = r.farm then hfb else s.hf g }, r, p)
+
+/-- second half: what happens to the proxy-farming part `p` of record `r`; returns the locked
+    tokens `(k, q)` that leave the proxy's reserve -/
+def settle (s : St) (r : WFarm) (p : Nat) : Mode → Option (St × Nat × Nat)
+  | .keep => some (s, 0, 0)
+  | .out =>
+      match r.kind with
+      | .locked => do
+          let lk ← s.lk.sub? r.pn p
+          pure ({ s with lk := lk }, r.pn, p)
+      | .wlp => do
+          let rw ← s.wl[r.pn]?
+          let h ← sub? rw.held p
+          pure (setW s r.pn { rw with held := h, circ := rw.circ + p }, 0, 0)
+  | .dissolve orphan =>
+      match r.kind with
+      | .locked => do
+          let lk ← s.lk.sub? r.pn p
+          pure ({ s with lk := lk }, r.pn, p)
+      | .wlp => do
+          let rw ← s.wl[r.pn]?
+          let h ← sub? rw.held p
+          let q ← part rw.locked rw.total p
+          let rem ← sub? rw.rem q
+          let lk ← s.lk.sub? rw.k q
+          pure ({ setW s r.pn { rw with held := h, rem := rem,
+                                         orph := if orphan then rw.orph + p else rw.orph }
+                    with lk := lk }, rw.k, q)
+
+/-- a user pays `x` of wrapped farm nonce `f`; the proxy burns it, the farm tokens leave the
+    proxy, and the pro-rata proxy-farming part is treated according to `mode`. -/
+def takeF (s : St) (f x : Nat) (mode : Mode) : Option (St × Taken) := do
+  let (s1, r, p) ← takeF0 s f x
+  let (s2, k, q) ← settle s1 r p mode
+  pure (s2, ⟨r, p, k, q⟩)
 
 /-- create a wrapped LP token; returns its nonce.  `toUser`: minted to the caller, else kept. -/
 def newW (s : St) (total k locked : Nat) (toUser : Bool) : St × Nat :=
